@@ -269,6 +269,15 @@ pub struct RunCfg {
     /// one step (several replies / deliveries become runnable together).
     #[serde(default)]
     pub f_multi: u32,
+    /// pending / failed `pay` results carry a (placeholder) payment_preimage so
+    /// that they deserialise into the typed response; without it the plugin
+    /// sees a code-less RPC error although the command ran.
+    #[serde(default = "yes")]
+    pub pay_placeholder: bool,
+    /// C19: option values sent as raw JSON text (strings, floats, integers
+    /// beyond i64) - all of them must make the plugin refuse to start.
+    #[serde(default)]
+    pub raw_json_opts: Option<std::collections::BTreeMap<String, String>>,
     /// wire profile: the first hook call is written in the same chunk as `init`.
     #[serde(default)]
     pub pipeline_init: bool,
@@ -276,6 +285,10 @@ pub struct RunCfg {
     /// (0 pending, 1 failed, 2 complete).
     #[serde(default)]
     pub pre_parts: Vec<u8>,
+}
+
+fn yes() -> bool {
+    true
 }
 
 fn default_mode() -> String {
@@ -320,7 +333,7 @@ pub fn base_cfg(rng: &mut Rng, profile: &str) -> RunCfg {
         xpay: rng.chance(1, 3),
         no_self_hints: rng.chance(1, 2),
         log: rng.chance(1, 8),
-        start_height: *rng.pick(&[100u32, 0, 800_000, 1, 4_000_000]),
+        start_height: *rng.pick(&[100u32, 0, 800_000, 1, 4_000_000, 800_000, u32::MAX - 20, u32::MAX - 3000]),
         n_hashes: 1 + rng.below(2) as usize,
         max_sets: 2 + rng.below(3) as u32,
         max_parts: *rng.pick(&[1u32, 2, 3, 4, 8]),
@@ -356,6 +369,8 @@ pub fn base_cfg(rng: &mut Rng, profile: &str) -> RunCfg {
         f_long_downtime: 0,
         f_yield: 0,
         f_multi: 0,
+        pay_placeholder: true,
+        raw_json_opts: None,
         pipeline_init: false,
         raw_opts: None,
         pre_parts: Vec::new(),
@@ -401,7 +416,7 @@ pub fn metadata_value(invoice_bytes: &[u8], amt: AmtField, extra_unknown: bool) 
     match amt {
         AmtField::Absent => {}
         AmtField::Value(v) => recs.push((33003, tu64_min(v))),
-        AmtField::RawLen(n) => recs.push((33003, vec![0x01; n])),
+        AmtField::RawLen(n) => recs.push((33003, vec![if n == 0 { 0 } else { 0x01 }; n])),
     }
     if extra_unknown {
         recs.push((33005, vec![0xde, 0xad]));
@@ -443,7 +458,13 @@ pub fn onion_payload_ext(
     for i in 0..n {
         // Lengths around the BigSize width boundary (252 / 253 / 254 / 255 / 256 / 300).
         let len = if i == 0 && extra_after & 4 != 0 {
-            [300usize, 253, 252, 254, 255, 256][(forward as usize ^ extra_after as usize ^ total as usize) % 6]
+            // (the three largest only where the input is not read byte by byte: bit 3)
+            let choices: &[usize] = if extra_after & 8 != 0 {
+                &[300, 253, 252, 254, 255, 256, 65535, 65536, 70000]
+            } else {
+                &[300, 253, 252, 254, 255, 256]
+            };
+            choices[(forward as usize ^ extra_after as usize ^ total as usize) % choices.len()]
         } else {
             1 + i as usize * 2
         };
@@ -543,7 +564,7 @@ pub fn malformed_metadata(rng: &mut Rng, invoice: &[u8]) -> (Vec<u8>, &'static s
 
 /// Unusable-but-well-formed metadata.
 pub fn unusable_metadata(rng: &mut Rng, pool: &Pool, hash_ix: usize) -> (Vec<u8>, &'static str) {
-    match rng.below(10) {
+    match rng.below(12) {
         0 => (encode_tlv(&[(33003, tu64_min(5))]), "meta:amount-only"),
         1 => (
             encode_tlv(&[(33001, vec![0xff, 0xfe, 0xfd])]),
@@ -588,6 +609,27 @@ pub fn unusable_metadata(rng: &mut Rng, pool: &Pool, hash_ix: usize) -> (Vec<u8>
         8 => {
             let inner = encode_tlv(&[(33001, vec![0x41, 0x42])]);
             (with_length_prefix(&inner), "meta:length-prefixed-invoice")
+        }
+        9 => {
+            // Two invoice records: the first one (garbage) counts.
+            (
+                encode_tlv(&[
+                    (33001, b"lnbc1garbage".to_vec()),
+                    (33001, pool.inv(hash_ix, InvKind::Fixed).bolt11.as_bytes().to_vec()),
+                ]),
+                "meta:duplicate-invoice-first-garbage",
+            )
+        }
+        10 => {
+            // Two amount records on a fixed invoice: the first one (disagreeing) counts.
+            (
+                encode_tlv(&[
+                    (33001, pool.inv(hash_ix, InvKind::Fixed).bolt11.as_bytes().to_vec()),
+                    (33003, tu64_min(pool.fixed_amounts[hash_ix] / 2)),
+                    (33003, tu64_min(pool.fixed_amounts[hash_ix])),
+                ]),
+                "meta:duplicate-amount-first-disagrees",
+            )
         }
         7 => {
             // Reaches the payload-rewrite branch: read with a length prefix it
@@ -725,7 +767,7 @@ pub fn gen_set(content_seed: u64, set_ix: u32, cfg: &RunCfg, force_hash: Option<
     if r.permille(cfg.f_malformed) {
         let inv = pool.inv(hash_ix, InvKind::Fixed);
         let (meta, tag) = malformed_metadata(r, inv.bolt11.as_bytes());
-        let payload = onion_payload_ext(1000, 500, 1000, Some(&meta), r.below(8) as u8);
+        let payload = onion_payload_ext(1000, 500, 1000, Some(&meta), r.below(8) as u8 | if cfg.chunking == 0 { 8 } else { 0 });
         return SetSpec {
             set_ix,
             hash_ix,
@@ -760,9 +802,16 @@ pub fn gen_set(content_seed: u64, set_ix: u32, cfg: &RunCfg, force_hash: Option<
     let extreme = r.permille(cfg.f_extreme_numbers);
     let (amount, amt_field) = match inv.amount {
         Some(a) => {
-            let f = match r.below(6) {
+            let f = match r.below(9) {
                 0 => AmtField::Value(a),
                 1 => AmtField::RawLen(9), // ignored as malformed, invoice amount rules
+                2 => match r.below(4) {
+                    // well-formed but disagreeing: not a trampoline request
+                    0 => AmtField::Value(0),
+                    1 => AmtField::RawLen(0),
+                    2 => AmtField::Value(a / 2),
+                    _ => AmtField::Value(a.saturating_add(1)),
+                },
                 _ => AmtField::Absent,
             };
             (a, f)
@@ -924,8 +973,9 @@ pub fn gen_set(content_seed: u64, set_ix: u32, cfg: &RunCfg, force_hash: Option<
     }
 }
 
-fn gen_nontrampoline(r: &mut Rng, _cfg: &RunCfg, set_ix: u32, hash_ix: usize) -> SetSpec {
+fn gen_nontrampoline(r: &mut Rng, cfg: &RunCfg, set_ix: u32, hash_ix: usize) -> SetSpec {
     let pool = pool();
+    let big: u8 = if cfg.chunking == 0 { 8 } else { 0 };
     let inv = pool.inv(hash_ix, InvKind::Fixed);
     let good_meta = metadata_value(inv.bolt11.as_bytes(), AmtField::Absent, false);
     let (payload, scid, fwd, tag): (Vec<u8>, Option<String>, Option<u64>, &'static str) =
@@ -943,7 +993,7 @@ fn gen_nontrampoline(r: &mut Rng, _cfg: &RunCfg, set_ix: u32, hash_ix: usize) ->
             ),
             1 => (
                 // forward that (strangely) carries good trampoline metadata
-                onion_payload_ext(1000, 500, 1000, Some(&good_meta), r.below(8) as u8),
+                onion_payload_ext(1000, 500, 1000, Some(&good_meta), r.below(8) as u8 | big),
                 Some("103x1x0".to_string()),
                 Some(1000),
                 "forward-with-metadata",
@@ -957,7 +1007,7 @@ fn gen_nontrampoline(r: &mut Rng, _cfg: &RunCfg, set_ix: u32, hash_ix: usize) ->
             3 => {
                 let (m, tag) = unusable_metadata(r, pool, hash_ix);
                 (
-                    onion_payload_ext(1000, 500, 1000, Some(&m), r.below(8) as u8),
+                    onion_payload_ext(1000, 500, 1000, Some(&m), r.below(8) as u8 | big),
                     None,
                     Some(1000),
                     tag,
